@@ -12,6 +12,7 @@ from hypothesis import strategies as st
 PI = math.pi
 TARGETS = ["car", "bicycle", "pedestrian", "truck", "bus", "motorbike"]
 ALL_AW = TARGETS + ["unknown", "animal"]
+TL_TARGETS = ["traffic_light", "green", "red", "yellow", "green_left", "red_straight"]
 EPS = 1e-3
 
 
@@ -179,12 +180,14 @@ CAMS = ["cam_front", "cam_back", "cam_traffic_light_near"]
 
 
 @st.composite
-def scenes2d(draw, max_gt=8, max_est=8, targets=None, allow_fp_gt=True, cams=CAMS, ties=False):
-    """ROI objects: integer (x, y, w>=1, h>=1) within 4k x 4k; estimates as perturbations of ground truths."""
+def scenes2d(draw, max_gt=8, max_est=8, targets=None, allow_fp_gt=True, cams=CAMS, ties=False, fam="autoware"):
+    """ROI objects: integer (x, y, w>=1, h>=1) within 4k x 4k; estimates as perturbations of ground truths.
+    fam="tl": traffic-light label family (ROI objects of traffic-light detection / tracking)."""
+    TARGETS = TL_TARGETS if fam == "tl" else globals()["TARGETS"]
     targets = targets if targets is not None else draw(st.lists(st.sampled_from(TARGETS), min_size=1, max_size=4, unique=True))
     n_gt = draw(counts(0, max_gt))
     cells = draw(st.lists(st.tuples(st.integers(0, 8), st.integers(0, 8), st.integers(0, len(cams) - 1)), min_size=n_gt, max_size=n_gt, unique=True))
-    non_targets = [l for l in TARGETS if l not in targets] or ["animal"]
+    non_targets = [l for l in TARGETS if l not in targets] or (["animal"] if fam != "tl" else ["red_left"])
     gt = []
     for i, (cx, cy, ci) in enumerate(cells):
         kind = draw(st.sampled_from(["t", "t", "t", "nt", "fp" if allow_fp_gt else "t", "unk"]))
@@ -226,7 +229,10 @@ def scenes2d(draw, max_gt=8, max_est=8, targets=None, allow_fp_gt=True, cams=CAM
                 "uuid": f"e{j}",
             }
         )
-    return {"targets": targets, "gt": gt, "est": est}
+    if fam != "autoware":
+        for o in gt + est:
+            o["fam"] = fam
+    return {"targets": targets, "gt": gt, "est": est, "fam": fam}
 
 
 def policies():
